@@ -21,6 +21,7 @@ type flowResult struct {
 	Rets    map[retUse]bool
 	CallArg map[*ssa.Call][]int // calls receiving a flowed value, with the argument positions
 	Fields  map[*types.Var]bool // struct fields the value was stored into
+	Stores  []*ssa.Store        // the field stores performed
 }
 
 // fieldVar returns the field object addressed by a FieldAddr.
@@ -116,6 +117,7 @@ func (c *Ctx) forward(srcs []ssa.Value, through func(call *ssa.Call, argIdx int)
 				case *ssa.FieldAddr:
 					if fv := fieldVar(a); fv != nil {
 						res.Fields[fv] = true
+						res.Stores = append(res.Stores, x)
 						work = append(work, c.fieldLoads()[fv]...)
 					}
 				case *ssa.Alloc:
@@ -179,6 +181,60 @@ func dependsOn(v, target ssa.Value, through func(call *ssa.Call) bool) bool {
 			return walk(y.X)
 		}
 		return false
+	}
+	return walk(v)
+}
+
+// mustDepend reports whether v is computed from src on every path that comes from src's definition:
+// phi edges whose predecessor is not reachable from `from` are initial values and are ignored.
+func mustDepend(v ssa.Value, srcs map[ssa.Value]bool, from *ssa.BasicBlock, through func(*ssa.Call) bool) bool {
+	state := map[ssa.Value]int{} // 1 = in progress (assume true), 2 = true, 3 = false
+	var walk func(ssa.Value) bool
+	walk = func(x ssa.Value) bool {
+		x = ssax.Strip(x)
+		if srcs[x] {
+			return true
+		}
+		switch state[x] {
+		case 1, 2:
+			return true
+		case 3:
+			return false
+		}
+		state[x] = 1
+		ok := false
+		switch y := x.(type) {
+		case *ssa.Phi:
+			ok = true
+			n := 0
+			for i, e := range y.Edges {
+				pred := y.Block().Preds[i]
+				if pred != from && !ssax.Reaches(from, pred, false) {
+					continue
+				}
+				n++
+				if !walk(e) {
+					ok = false
+				}
+			}
+			if n == 0 {
+				ok = false
+			}
+		case *ssa.Call:
+			if through != nil && through(y) {
+				for _, a := range y.Call.Args {
+					if walk(a) {
+						ok = true
+					}
+				}
+			}
+		}
+		if ok {
+			state[x] = 2
+		} else {
+			state[x] = 3
+		}
+		return ok
 	}
 	return walk(v)
 }
